@@ -42,6 +42,8 @@ class SimFS:
         self.eio_fired = 0
         self.enoent_fired = 0
         self.enotdir_fired = 0
+        self.fds: dict[int, str] = {}
+        self.next_fd = 1_000_000
         self.opens = 0
         self.stats = 0
         self.rlog = None  # optional storage.ReadLog: content reads per task
@@ -123,7 +125,28 @@ class SimFS:
         self.log.append((_task_name(), "open", path, "ok"))
         if self.rlog is not None:
             self.rlog.ok()
-        return io.StringIO(f[0])
+        t = _SimText(f[0])
+        self.next_fd += 1
+        t._fd = self.next_fd
+        self.fds[t._fd] = path
+        return t
+
+
+FAKE_FD0 = 1_000_000
+
+
+class _SimText(io.StringIO):
+    _fd = -1
+
+    def fileno(self) -> int:
+        return self._fd
+
+
+class _SimBytes(io.BytesIO):
+    _fd = -1
+
+    def fileno(self) -> int:
+        return self._fd
 
 
 ACTIVE: SimFS | None = None
@@ -161,6 +184,63 @@ def install() -> None:
 
     pathlib.Path.stat = stat  # type: ignore[method-assign]
     pathlib.Path.open = open_  # type: ignore[method-assign]
+
+    # The same dispatch one level lower, so that code reaching the file system through
+    # os.stat / os.lstat / os.fstat / os.path.* / open() / io.open() sees SimFS too.
+    import builtins
+
+    real_os_stat, real_os_lstat, real_os_fstat = os.stat, os.lstat, os.fstat
+    real_io_open = io.open
+
+    def _as_sim(path):
+        if isinstance(path, int) or ACTIVE is None:
+            return None
+        try:
+            p = os.fspath(path)
+        except TypeError:
+            return None
+        if isinstance(p, bytes):
+            p = p.decode("utf-8", "surrogateescape")
+        if p == ROOT or p.startswith(ROOT + "/"):
+            return os.path.normpath(p)
+        return None
+
+    def os_stat(path, *args, **kwargs):
+        s = _as_sim(path)
+        if s is None:
+            return real_os_stat(path, *args, **kwargs)
+        return ACTIVE._stat(s)
+
+    def os_lstat(path, *args, **kwargs):
+        s = _as_sim(path)
+        if s is None:
+            return real_os_lstat(path, *args, **kwargs)
+        return ACTIVE._stat(s)
+
+    def os_fstat(fd):
+        if isinstance(fd, int) and fd >= FAKE_FD0 and ACTIVE is not None and fd in ACTIVE.fds:
+            return ACTIVE._stat(ACTIVE.fds[fd])
+        return real_os_fstat(fd)
+
+    def io_open(file, mode="r", *args, **kwargs):
+        s = _as_sim(file)
+        if s is None:
+            return real_io_open(file, mode, *args, **kwargs)
+        if "r" not in mode or "+" in mode:
+            raise OSError(errno.EROFS, "SimFS is read-only through open()", s)
+        f = ACTIVE._open(s)
+        if "b" in mode:
+            data = f.getvalue().encode("utf-8")
+            b = _SimBytes(data)
+            b._fd = f._fd
+            return b
+        return f
+
+    os.stat = os_stat
+    os.lstat = os_lstat
+    os.fstat = os_fstat
+    io.open = io_open
+    builtins.open = io_open
 
 
 def activate(fs: SimFS | None) -> None:
